@@ -148,6 +148,8 @@ class StockSim(Engine):
                 op = {"op": "set_prms", "k": k, "specs": [gen_prm_spec(rng, nd), gen_prm_spec(rng, nd)]}
                 if rng.chance(fp_bad):
                     op["bad"] = "negative"
+                elif rng.chance(0.2):
+                    op["nudge"] = rng.choice([1e-7, 1e-6, -1e-6, 1e-4])  # almost the same parameters again
             elif kind == "compute":
                 op = {"op": "compute", "k": k, "twice": rng.chance(0.3)}
             elif kind == "read":
@@ -156,6 +158,8 @@ class StockSim(Engine):
                 op = {"op": "set_param", "which": rng.randint(0, 2), "spec": gen_prm_spec(rng, nd), "vseed": rng.randint(0, 10 ** 6)}
                 if rng.chance(fp_bad):
                     op["bad"] = "negative"
+                elif rng.chance(0.2):
+                    op["nudge"] = rng.choice([1e-7, 1e-6, -1e-6, 1e-4])
             else:
                 op = {"op": "sys_compute", "twice": rng.chance(0.3)}
             if op["op"] in ("compute", "read", "set_prms", "sys_compute") and rng.chance(fp):
@@ -540,6 +544,9 @@ class StockSim(Engine):
             lt = stock.lifetime_model
             ltname = [nme for nme, c in LT.items() if type(lt) is c][0]
             kw = self._prm_kwargs(st, ltname, op["specs"], op.get("bad"))
+            if op.get("nudge") and all(v is not None for v in lt.prms.values()):
+                kw = {k_: np.array(v, copy=True) * (1.0 + op["nudge"]) for k_, v in lt.prms.items()}
+                self._probe(st, "set_prms_almost_equal_values")
             if op.get("bad"):
                 st.faults["negative_parameter"] = st.faults.get("negative_parameter", 0) + 1
             out = self._call(st, op, n, lambda: lt.set_prms(**kw))
@@ -586,6 +593,9 @@ class StockSim(Engine):
             lo, hi = ranges[name]
             rs = np.random.RandomState(op["vseed"] % 2 ** 31)
             vals = np.round(rs.uniform(lo, hi, size=p.values.shape), 3)
+            if op.get("nudge"):
+                vals = p.values * (1.0 + op["nudge"])
+                self._probe(st, "set_prms_almost_equal_values")
             if op.get("bad") and name != "driver":
                 vals = -vals
                 st.faults["negative_parameter"] = st.faults.get("negative_parameter", 0) + 1
